@@ -78,6 +78,7 @@ class Sched:
         self._baton = threading.Semaphore(0)   # thread backend: scheduler sem
         self.clock_reads = 0
         self.preempt = None       # optional callable deciding line pre-emption
+        self.yield_budget = None  # max yields at signalling ops (enumeration)
 
     # ------------------------------------------------------------------ time
     def time(self):
@@ -207,8 +208,15 @@ class Sched:
         if self.policy == 'random' and len(self.trace) >= len(self.prefix):
             if self.rng.random() < self.yield_prob:
                 self.yield_now()
-        elif self.choose(2) == 1:
-            self.yield_now()
+        elif self.yield_budget is None or self.yield_budget > 0:
+            # enumeration: yielding here is a binary choice; the number of
+            # yields taken per run can be bounded (pre-emption bounding)
+            if not self.ready:
+                return
+            if self.choose(2) == 1:
+                if self.yield_budget is not None:
+                    self.yield_budget -= 1
+                self.yield_now()
 
     # --------------------------------------------------------------- driver
     def step(self):
